@@ -239,7 +239,7 @@ func init() {
 		Cases: func(seed uint64, tier string) []Case {
 			ng := 36
 			if !quick(tier) {
-				ng = 1200
+				ng = 600
 			}
 			var cs []Case
 			for i := 0; i < ng; i++ {
